@@ -81,7 +81,7 @@ var scopeErr = [nS]error{
 }
 
 // decide turns the credential text found in the request into the scheme's answer.
-func decide(s int, cred string, required []string) (bool, interface{}, error) {
+func decide(naming uint8, s int, cred string, required []string) (bool, interface{}, error) {
 	switch cred {
 	case "":
 		return false, nil, nil
@@ -93,7 +93,7 @@ func decide(s int, cred string, required []string) (bool, interface{}, error) {
 		return true, nil, rejErr[s]
 	case "oks":
 		for _, sc := range required {
-			if !granted(s, sc) {
+			if !granted(naming, s, sc) {
 				return true, nil, scopeErr[s]
 			}
 		}
@@ -102,7 +102,7 @@ func decide(s int, cred string, required []string) (bool, interface{}, error) {
 	return true, nil, rejErr[s]
 }
 
-func rawAuth(s int) runtime.Authenticator {
+func rawAuth(naming uint8, s int) runtime.Authenticator {
 	hdr := "X-Out-" + schemeName[s]
 	return runtime.AuthenticatorFunc(func(params interface{}) (bool, interface{}, error) {
 		var req *http.Request
@@ -116,14 +116,14 @@ func rawAuth(s int) runtime.Authenticator {
 			return false, nil, nil
 		}
 		stateOf(req.Context()).authCalls++
-		return decide(s, req.Header.Get(hdr), scopes)
+		return decide(naming, s, req.Header.Get(hdr), scopes)
 	})
 }
 
 // realAuth builds scheme s from the exported constructors of package security; the mode
 // selects the constructor family (context-carrying or plain callbacks; header or query API key;
 // default or explicit realm). Plain callbacks do not see the request, so they cannot log the call.
-func realAuth(mode uint8, s int) runtime.Authenticator {
+func realAuth(naming, mode uint8, s int) runtime.Authenticator {
 	ctxFlavour := mode == modeReal || mode == modeRealAlt
 	alt := mode == modeRealAlt || mode == modeRealAltPlain
 	switch s {
@@ -135,12 +135,12 @@ func realAuth(mode uint8, s int) runtime.Authenticator {
 		if ctxFlavour {
 			return security.APIKeyAuthCtx(name, in, func(ctx context.Context, token string) (context.Context, interface{}, error) {
 				stateOf(ctx).authCalls++
-				_, p, err := decide(0, token, nil)
+				_, p, err := decide(naming, 0, token, nil)
 				return ctx, p, err
 			})
 		}
 		return security.APIKeyAuth(name, in, func(token string) (interface{}, error) {
-			_, p, err := decide(0, token, nil)
+			_, p, err := decide(naming, 0, token, nil)
 			return p, err
 		})
 	case 1:
@@ -148,62 +148,62 @@ func realAuth(mode uint8, s int) runtime.Authenticator {
 		case ctxFlavour && alt:
 			return security.BasicAuthRealmCtx("c02", func(ctx context.Context, _ string, pass string) (context.Context, interface{}, error) {
 				stateOf(ctx).authCalls++
-				_, p, err := decide(1, pass, nil)
+				_, p, err := decide(naming, 1, pass, nil)
 				return ctx, p, err
 			})
 		case ctxFlavour:
 			return security.BasicAuthCtx(func(ctx context.Context, _ string, pass string) (context.Context, interface{}, error) {
 				stateOf(ctx).authCalls++
-				_, p, err := decide(1, pass, nil)
+				_, p, err := decide(naming, 1, pass, nil)
 				return ctx, p, err
 			})
 		case alt:
 			return security.BasicAuthRealm("c02", func(_ string, pass string) (interface{}, error) {
-				_, p, err := decide(1, pass, nil)
+				_, p, err := decide(naming, 1, pass, nil)
 				return p, err
 			})
 		}
 		return security.BasicAuth(func(_ string, pass string) (interface{}, error) {
-			_, p, err := decide(1, pass, nil)
+			_, p, err := decide(naming, 1, pass, nil)
 			return p, err
 		})
 	}
 	if ctxFlavour {
 		return security.BearerAuthCtx("k3", func(ctx context.Context, token string, scopes []string) (context.Context, interface{}, error) {
 			stateOf(ctx).authCalls++
-			_, p, err := decide(2, token, scopes)
+			_, p, err := decide(naming, 2, token, scopes)
 			return ctx, p, err
 		})
 	}
 	return security.BearerAuth("k3", func(token string, scopes []string) (interface{}, error) {
-		_, p, err := decide(2, token, scopes)
+		_, p, err := decide(naming, 2, token, scopes)
 		return p, err
 	})
 }
 
 // wrappedAuth: the generic wrappers of package security around the scripted decision.
-func wrappedAuth(s int) runtime.Authenticator {
+func wrappedAuth(naming uint8, s int) runtime.Authenticator {
 	hdr := "X-Out-" + schemeName[s]
 	if s == 2 {
 		return security.ScopedAuthenticator(func(r *security.ScopedAuthRequest) (bool, interface{}, error) {
 			stateOf(r.Request.Context()).authCalls++
-			return decide(s, r.Request.Header.Get(hdr), r.RequiredScopes)
+			return decide(naming, s, r.Request.Header.Get(hdr), r.RequiredScopes)
 		})
 	}
 	return security.HttpAuthenticator(func(r *http.Request) (bool, interface{}, error) {
 		stateOf(r.Context()).authCalls++
-		return decide(s, r.Header.Get(hdr), nil)
+		return decide(naming, s, r.Header.Get(hdr), nil)
 	})
 }
 
-func authFor(mode uint8, s int) runtime.Authenticator {
+func authFor(naming, mode uint8, s int) runtime.Authenticator {
 	switch mode {
 	case modeRaw:
-		return rawAuth(s)
+		return rawAuth(naming, s)
 	case modeWrapped:
-		return wrappedAuth(s)
+		return wrappedAuth(naming, s)
 	}
-	return realAuth(mode, s)
+	return realAuth(naming, mode, s)
 }
 
 var errAzPlain = stderrors.New(tagName[tAzDeny])
@@ -263,13 +263,13 @@ type structure struct {
 	masks [3]uint8
 }
 
-func (st structure) security() []map[string][]string {
+func (st structure) security(naming uint8) []map[string][]string {
 	out := []map[string][]string{}
 	for i := 0; i < int(st.n); i++ {
 		alt := map[string][]string{}
 		for s := 0; s < nS; s++ {
 			if st.masks[i]&(1<<uint(s)) != 0 {
-				alt[schemeName[s]] = scopesOf(i, s)
+				alt[schemeNames[naming][s]] = scopesOf(naming, i, s)
 			}
 		}
 		out = append(out, alt)
@@ -312,6 +312,7 @@ type envKey struct {
 	reg, undef uint8
 	az         bool
 	wiring     uint8
+	naming     uint8
 }
 
 type env struct {
@@ -332,19 +333,21 @@ func buildEnv(key envKey, structs []structure) *env {
 	e := &env{key: key, structs: structs}
 	defs := map[string]any{}
 	if key.undef&1 == 0 {
-		defs["k1"] = map[string]any{"type": "apiKey", "name": "X-K1", "in": "header"}
+		defs[schemeNames[key.naming][0]] = map[string]any{"type": "apiKey", "name": "X-K1", "in": "header"}
 	}
 	if key.undef&2 == 0 {
-		defs["k2"] = map[string]any{"type": "basic"}
+		defs[schemeNames[key.naming][1]] = map[string]any{"type": "basic"}
 	}
 	if key.undef&4 == 0 {
-		scopes := map[string]any{"r": "common"}
+		scopes := map[string]any{}
 		for pos := 0; pos < 3; pos++ {
 			for s := 0; s < nS; s++ {
-				scopes[fmt.Sprintf("%s.%d", schemeName[s], pos)] = "positional"
+				for _, sc := range scopesOf(key.naming, pos, s) {
+					scopes[sc] = "declared"
+				}
 			}
 		}
-		defs["k3"] = map[string]any{"type": "oauth2", "flow": "accessCode", "authorizationUrl": "http://a.invalid/a", "tokenUrl": "http://a.invalid/t", "scopes": scopes}
+		defs[schemeNames[key.naming][2]] = map[string]any{"type": "oauth2", "flow": "accessCode", "authorizationUrl": "http://a.invalid/a", "tokenUrl": "http://a.invalid/t", "scopes": scopes}
 	}
 	params := []map[string]any{
 		{"name": "body", "in": "body", "required": true, "schema": map[string]any{"type": "object"}},
@@ -358,7 +361,7 @@ func buildEnv(key envKey, structs []structure) *env {
 			sp.Security = []map[string][]string{{}}
 		}
 		for i, st := range structs {
-			sec := st.security()
+			sec := st.security(key.naming)
 			sp.Ops = append(sp.Ops, apib.Op{Method: "POST", Path: opPath(i), Params: params, Security: &sec})
 			paths = append(paths, opPath(i))
 		}
@@ -366,7 +369,7 @@ func buildEnv(key envKey, structs []structure) *env {
 		if len(structs) != 1 {
 			panic("global declaration takes one structure")
 		}
-		sp.Security = structs[0].security()
+		sp.Security = structs[0].security(key.naming)
 		empty := []map[string][]string{}
 		sp.Ops = append(sp.Ops,
 			apib.Op{Method: "POST", Path: opPath(0), Params: params},
@@ -399,7 +402,7 @@ func buildEnv(key envKey, structs []structure) *env {
 		registerSecurity := func() {
 			for s := 0; s < nS; s++ {
 				if key.reg&(1<<uint(s)) != 0 {
-					api.RegisterAuth(schemeName[s], authFor(key.mode, s))
+					api.RegisterAuth(schemeNames[key.naming][s], authFor(key.naming, key.mode, s))
 				}
 			}
 			if az != nil {
@@ -465,19 +468,19 @@ func ordered(base middleware.RouteAuthenticators, k kase) (middleware.RouteAuthe
 		if a.n == 0 {
 			continue
 		}
-		if !sameSet(out[i].Schemes, a) {
+		if !sameSet(k.naming, out[i].Schemes, a) {
 			return base, false
 		}
 		ns := make([]string, a.n)
 		for j := range ns {
-			ns[j] = schemeName[a.s[j]]
+			ns[j] = schemeNames[k.naming][a.s[j]]
 		}
 		out[i].Schemes = ns
 	}
 	return out, true
 }
 
-func sameSet(schemes []string, a altK) bool {
+func sameSet(naming uint8, schemes []string, a altK) bool {
 	if len(schemes) != int(a.n) {
 		return false
 	}
@@ -485,7 +488,7 @@ func sameSet(schemes []string, a altK) bool {
 	for _, s := range schemes {
 		found := false
 		for i := 0; i < nS; i++ {
-			if schemeName[i] == s {
+			if schemeNames[naming][i] == s {
 				m |= 1 << uint(i)
 				found = true
 			}
@@ -511,14 +514,14 @@ func (e *env) setOrder(op int, k kase) bool {
 		if a.n == 0 {
 			continue
 		}
-		if !sameSet(base[i].Schemes, a) {
+		if !sameSet(k.naming, base[i].Schemes, a) {
 			return false
 		}
 	}
 	for i := range base {
 		a := k.alts[i]
 		for j := 0; j < int(a.n); j++ {
-			base[i].Schemes[j] = schemeName[a.s[j]]
+			base[i].Schemes[j] = schemeNames[k.naming][a.s[j]]
 		}
 	}
 	again := e.lookup(opPath(op)).Authenticators
@@ -534,7 +537,7 @@ func (e *env) setOrder(op int, k kase) bool {
 			return false
 		}
 		for j := 0; j < int(a.n); j++ {
-			if again[i].Schemes[j] != schemeName[a.s[j]] {
+			if again[i].Schemes[j] != schemeNames[k.naming][a.s[j]] {
 				return false
 			}
 		}
@@ -581,8 +584,8 @@ func (t *typedAPI) ProducersFor(mediaTypes []string) map[string]runtime.Producer
 func (t *typedAPI) AuthenticatorsFor(schemes map[string]spec.SecurityScheme) map[string]runtime.Authenticator {
 	out := map[string]runtime.Authenticator{}
 	for s := 0; s < nS; s++ {
-		if _, ok := schemes[schemeName[s]]; ok && t.key.reg&(1<<uint(s)) != 0 {
-			out[schemeName[s]] = authFor(t.key.mode, s)
+		if _, ok := schemes[schemeNames[t.key.naming][s]]; ok && t.key.reg&(1<<uint(s)) != 0 {
+			out[schemeNames[t.key.naming][s]] = authFor(t.key.naming, t.key.mode, s)
 		}
 	}
 	return out
